@@ -218,7 +218,25 @@ func (set *TemplateSet) FromBytes(tpl []byte) (*Template, error) {
 
 // FromFile loads a template from a filename and returns a Template instance.
 func (set *TemplateSet) FromFile(filename string) (*Template, error) {
+	return set.fromFileLoadedBy(nil, filename)
+}
+
+// fromFileLoadedBy is FromFile for a template which is named by an extends,
+// include, import or ssi tag of the template by. A template which is still
+// being loaded can't be loaded once more on its own behalf: it would include
+// (extend, import) itself without end.
+func (set *TemplateSet) fromFileLoadedBy(by *Template, filename string) (*Template, error) {
 	set.markFirstTemplateCreated()
+
+	for t := by; t != nil; t = t.loadedBy {
+		if !t.isTplString && t.name == filename {
+			return nil, &Error{
+				Filename:  filename,
+				Sender:    "parser",
+				OrigError: fmt.Errorf("template '%s' includes, extends or imports itself", filename),
+			}
+		}
+	}
 
 	_, _, fd, err := set.resolveTemplate(nil, filename)
 	if err != nil {
@@ -237,7 +255,7 @@ func (set *TemplateSet) FromFile(filename string) (*Template, error) {
 		}
 	}
 
-	return newTemplate(set, filename, false, buf)
+	return newTemplateLoadedBy(set, by, filename, false, buf)
 }
 
 // RenderTemplateString is a shortcut and renders a template string directly.
